@@ -119,6 +119,37 @@ fn check_typed_positions(i: i64) -> CaseResult {
         }
         Err(_) => ensure!(!ok, "key type {} rejected though registered", i),
     }
+    // the header-typed labels arriving *after* labels the crate does not interpret (a positive integer
+    // above 7, a text, a negative integer): map order carries no meaning
+    for (ahead, descr) in [(Item::Int(33), "label 33"), (Item::Text("k".into()), "a text label"), (Item::Int(-1), "label -1"), (Item::Int(256), "label 256")] {
+        let hb = m(vec![(ahead.clone(), Item::Bytes(vec![0])), (Item::Int(1), n.clone())]);
+        match Header::from_slice(&hb) {
+            Ok(h) => {
+                ensure!(alg_ok, "header alg {} after {} accepted though unregistered and not private", i, descr);
+                let l = crate::model::alg_to_l(h.alg.as_ref().ok_or_else(|| format!("header alg {} arriving after {} was not recognised as the algorithm (rest = {:?})", i, descr, h.rest))?)?;
+                ensure!(l == L::Int(i) && h.rest.len() == 1, "header alg {} after {} decoded as {:?} with extras {:?}", i, descr, l, h.rest);
+            }
+            Err(_) => ensure!(!alg_ok, "header alg {} after {} rejected though registered or private", i, descr),
+        }
+        let ok3 = reg::registered(reg::COAP_CONTENT_FORMAT, i);
+        let hb = m(vec![(ahead.clone(), Item::Null), (Item::Int(3), n.clone())]);
+        match Header::from_slice(&hb) {
+            Ok(h) => {
+                ensure!(ok3, "content format {} after {} accepted though unregistered", i, descr);
+                ensure!(h.content_type.is_some() && h.rest.len() == 1, "content format {} arriving after {} was not recognised (rest = {:?})", i, descr, h.rest);
+            }
+            Err(_) => ensure!(!ok3, "content format {} after {} rejected though registered", i, descr),
+        }
+        let ok2 = reg::registered(reg::HEADER_PARAMETER, i);
+        let hb = m(vec![(ahead.clone(), Item::Int(0)), (Item::Int(2), Item::Array(vec![n.clone()]))]);
+        match Header::from_slice(&hb) {
+            Ok(h) => {
+                ensure!(ok2, "crit entry {} after {} accepted though unregistered", i, descr);
+                ensure!(h.crit.len() == 1 && h.rest.len() == 1, "crit entry {} arriving after {} was not recognised (rest = {:?})", i, descr, h.rest);
+            }
+            Err(_) => ensure!(!ok2, "crit entry {} after {} rejected though registered", i, descr),
+        }
+    }
     // the header-typed integers inside protected byte strings: of a message, and of a counter-signature
     for (label, table, private_ok) in [(1i128, reg::ALGORITHM, true), (3, reg::COAP_CONTENT_FORMAT, false)] {
         let ok = reg::registered(table, i) || (private_ok && is_private(i));
